@@ -24,7 +24,8 @@ LEVEL = 'fault_enumeration'
 RULE = ('signed Data/Interest from the real encoder x matching verifiers (verify_*, *Checker.from_key/from_cert, '
         'sha256_digest_checker, params_sha256_checker); mutants: byte substitution at every position (2 values), '
         'every truncation, structural edits, spliced signatures, wrong key; distinct = (packet kind, signer, '
-        'mutation kind, region of the mutated byte); non-trivial = a verifier verdict was obtained on a mutant')
+        'mutation kind, region of the mutated byte); non-trivial = a verifier verdict was obtained on a mutant'
+        '; signed Interests with the parameters digest mid-name and an implicit digest last')
 
 SIGNED_KINDS = ['digest', 'hmac', 'rsa', 'ecdsa256', 'ecdsa384', 'ecdsa521', 'ed25519']
 
